@@ -8,7 +8,10 @@
      mptplot/values/values_linear.c, values_bound.c
      mptcore/meta/iterator_string.c, mptcore/array/meta_buffer.c (+ slice_next.c),
      mptcore/types/iterator_consume.c, mptcore/misc/string_nextvis.c,
-     mptcore/convert/cdouble.c, convert_int.c (mpt_cuint32), convert_string.c (number case)
+     mptcore/convert/cdouble.c, convert_int.c (mpt_cuint32), convert_string.c (number case),
+     mptcore/convert/convert_key.c (mpt_convert_key), mptplot/values/range_set.c
+   iterator_string.c is modelled WITH docs/C19_string_vector.diff, docs/C19_string_key_separator.diff and
+   docs/C19_string_meta_target.diff (see docs/notes_C19.md, round 4).
 
    Values.  A C double is modelled by [fv]: a finite value is the exact rational
    it stands for, the non-finite values are classes.  Every arithmetic operation
@@ -582,19 +585,19 @@ Definition it_skip (s : src) : Z * src :=
 
 (* conversions of the metatype itself: parseConv (iterator_string.c), bufferConv / bufferConvArgs (meta_buffer.c).
    Result codes in the order the harness asks (see harness/c19_iter.c:op_meta), the format list, the vector
-   (None: null base) and the string handed out.  The CONTENT of the 's' / vector conversions of the text
+   (None: null base) and the string handed out; the last code is the result of addref (not offered: 0).  The CONTENT of the 's' / vector conversions of the text
    iterator is not modelled (see docs/notes_C19.md). *)
 Definition T_iter := 134. Definition T_metaptr := 256. Definition T_array := 2050. Definition T_bufptr := 11.
 Inductive mstr := MNull | MStr (b : list N) | MOpen (b : list N).     (* MOpen: no terminator inside the used data *)
 Record mres := { mr_codes : list Z; mr_fmt : list N; mr_vec : option (list N); mr_str : mstr }.
 Definition it_meta (s : src) : option mres :=
   match s with
-  | SStr _ => Some {| mr_codes := [T_iter; 0; T_s; T_s; BadType; T_s; T_s; T_s; T_s];
+  | SStr _ => Some {| mr_codes := [T_iter; 0; T_s; T_s; BadType; T_s; T_s; T_s; T_s; 0];
                       mr_fmt := [134; 115]%N; mr_vec := None; mr_str := MNull |}
   | SBuf m =>
       if m_args m then
         Some {| mr_codes := [T_metaptr; T_metaptr; T_array; T_array; BadType; T_array; T_array;
-                             BadType; BadType; BadType; BadType; BadType; T_iter; T_iter];
+                             BadType; BadType; BadType; BadType; BadType; T_iter; T_iter; 0];
                 mr_fmt := [134; 115]%N; mr_vec := None;
                 mr_str := match m_data m with
                           | Some d => if Nat.eqb (m_off m) O then MNull else
@@ -603,7 +606,7 @@ Definition it_meta (s : src) : option mres :=
                           end |}
       else
         Some {| mr_codes := [T_metaptr; T_metaptr; T_array; T_array; BadType; T_array; T_array;
-                             T_array; T_array; T_iter; T_iter; T_iter; BadType; BadType];
+                             T_array; T_array; T_iter; T_iter; T_iter; BadType; BadType; 0];
                 mr_fmt := [134; 11; 67]%N; mr_vec := m_data m; mr_str := MNull |}
   | _ => None
   end.
@@ -1009,7 +1012,7 @@ End Machines.
 
 (* ------------------------------------------------------------------ histories *)
 Inductive op := OValue | OAdvance | OReset | OClone | OConsume | OWalk | OString
-  | OKey | OKeyN | OVec | OVecN | OUint | OWalkK | OWalkV | OMeta | OSkip.
+  | OKey | OKeyN | OVec | OVecN | OUint | OWalkK | OWalkV | OMeta | OMetaS | OSkip.
 Inductive out :=
 | OutV (v : vres) | OutA (c : Z) | OutR (c : Z) | OutK (ok : bool)
 | OutQ (c : Z) (v : option fv) | OutW (l : list (option fv)) (e : wend)
@@ -1070,6 +1073,8 @@ Definition mstep (rnd : Q -> fv) (st : option src * option src) (o : op * bool)
           | _ => (st, OutNone)
           end
       | OMeta => (st, match it_meta s with Some r => OutM r | None => OutNone end)
+      (* text iterator metatype: conversion to 's' without target (WITH docs/C19_string_meta_target.diff) *)
+      | OMetaS => (st, match s with SStr _ => OutC T_s | _ => OutNone end)
       | OSkip => let (r, s') := it_skip rnd s in (put s', OutZ r)
       end
   end.
